@@ -77,14 +77,18 @@ run_part() {
   VF_EVIDENCE="$part" "$@" > "$S/out-$name.log" 2>&1
   local rc=$?
   grep -E '^(VIOLATION|KNOWN-FINDING|SUMMARY|INCONCLUSIVE|NOTE)' "$S/out-$name.log"
-  if [ $rc -ne 0 ] && ! grep -q '^VIOLATION' "$S/out-$name.log"; then
-    # the engine died without a verdict: show why
+  # the verdict is what the engine wrote into its evidence, not its exit code
+  # (the Go test runner also exits non-zero for race reports, which belong to C09)
+  if [ ! -s "$part" ]; then
     tail -n 60 "$S/out-$name.log" >&2
-    if [ ! -s "$part" ]; then
-      echo "HARNESS-ERROR engine $name exited $rc without evidence"; RC=2; return
-    fi
+    echo "HARNESS-ERROR engine $name exited $rc without evidence"; RC=2; return
   fi
-  [ $rc -eq 0 ] || { [ $RC -eq 2 ] || RC=1; }
+  local nv
+  nv=$(jq -r '.violations // 0' "$part" 2>/dev/null || echo 0)
+  if [ "$nv" != 0 ]; then
+    grep -q '^VIOLATION' "$S/out-$name.log" || echo "VIOLATION property=$PROP replay=$part (engine $name recorded $nv violations)"
+    [ $RC -eq 2 ] || RC=1
+  fi
 }
 
 inpkg_test() { # <name> <TestFunc> [timeout]
